@@ -22,7 +22,8 @@ ALL_CANON = ["a", "b", "c", "d", "e"]
 PATTERNS = {
     "P222": [2, 2, 2], "P231": [2, 3, 1], "P122": [1, 2, 2], "P322": [3, 2, 2], "P22": [2, 2],
     "P2222": [2, 2, 2, 2], "P2132": [2, 1, 3, 2], "P333": [3, 3, 3], "P323": [3, 2, 3],
-    "P233": [2, 3, 3], "P3": [3], "P32": [3, 2], "P23": [2, 3], "P33": [3, 3],
+    "P233": [2, 3, 3], "P3": [3], "P32": [3, 2], "P23": [2, 3], "P33": [3, 3], "P52": [5, 2], "P25": [2, 5],
+    "P22222": [2, 2, 2, 2, 2], "P23232": [2, 3, 2, 3, 2],
 }
 
 
